@@ -1,6 +1,7 @@
 //! vcheck: runs the check of one property (default revm feature set).
 mod common;
 mod evmrun;
+mod histcheck;
 mod monchecks;
 mod monitors;
 mod ops;
@@ -30,9 +31,13 @@ fn main() {
     });
     match id.as_str() {
         "C01" => txcheck::c01(&mut ctx),
+        "C02" => histcheck::c02(&mut ctx),
         "C03" => ops::c03(&mut ctx),
         "C04" => ops::c04(&mut ctx),
-        "C05" => ops::c05_opcodes(&mut ctx),
+        "C05" => {
+            ops::c05_opcodes(&mut ctx);
+            histcheck::c05_precompiles(&mut ctx);
+        }
         "C07" => monchecks::c07(&mut ctx),
         "C08" => monchecks::c08(&mut ctx),
         "C09" => monchecks::c09(&mut ctx),
@@ -44,12 +49,16 @@ fn main() {
         "C12" => structs::c12(&mut ctx),
         "C13" => pure::c13(&mut ctx),
         "C14" => pure::c14(&mut ctx),
+        "C21" => histcheck::c21(&mut ctx),
+        "C22" => histcheck::c22(&mut ctx),
         "C25" => monchecks::c25(&mut ctx),
         "C27" => pure::c27(&mut ctx),
         "C28" => monchecks::c28(&mut ctx),
         "C29" => monchecks::c29(&mut ctx),
         "C30" => monchecks::c30(&mut ctx),
+        "C31" => histcheck::c31(&mut ctx),
         "C32" => pure::c32(&mut ctx),
+        "C34" => histcheck::c34(&mut ctx),
         _ => {
             eprintln!("unknown property {id}");
             std::process::exit(2);
